@@ -28,6 +28,8 @@ keys = sorted({x["key"] for x in v if x["clause"] == clause and re.search(rx, x[
 kf = json.load(open("/verif/known_findings.json"))
 for e in kf["findings"]:
     if e["property"] == prop and e["id"] == fid:
+        if e["clause"] != clause:
+            sys.exit(f"finding {fid} already exists with clause {e['clause']!r}; use another id for clause {clause!r}")
         e["keys"] = sorted(set(e["keys"]) | set(keys)); e["what"] = what; e["clause"] = clause
         break
 else:
